@@ -115,7 +115,7 @@ class World:
                 self.by_cls.setdefault(a['cls'], []).append(n)
         for v in self.by_cls.values():
             v.sort()
-        handled = set(AUDIT)
+        handled = set(AUDIT) | current_handler_names()      # also decoders the working tree registers beyond the frozen audit
         self.known_names = sorted(n for n in self.name2id if n not in handled and n != UNDECODED_RFA)
         # named codes WITHOUT a decoder that sit next to decoded ones: the whole trace class (lost events, panic,
         # timestamps ...) and the subclasses that also hold decoded codes - the likeliest place for a special case
@@ -172,7 +172,8 @@ class World:
 
     # ---- in-domain words from the frozen audit
     def words(self, name, which):
-        a = AUDIT[name]
+        # (a decoder registered AFTER the audit was frozen: nothing is known about its domains - small plain numbers)
+        a = AUDIT.get(name) or {'dom': [[0, 1, 2, 3, 5, 7]] * 8}
         out = []
         for i in range(4):
             d = a['dom'][i + (4 if which == 'end' else 0)]
@@ -614,6 +615,30 @@ def describe(world, stream, upto=None):
                     'debugid': hex(a.debugid), 'words': [hex(w) for w in (a.words or ())],
                     'data': a.data.hex() if a.data else None, 'a': {x: y for x, y in a.abs['a'].items() if x != 'data'}})
     return out
+
+
+_CUR_HANDLERS = None
+
+
+def current_handler_names():
+    """names the WORKING TREE registers a decoder for (union of the families' tables): a name the frozen audit does not
+    know may have got a decoder since - it is then no example of a 'named but undecoded' record"""
+    global _CUR_HANDLERS
+    if _CUR_HANDLERS is None:
+        import importlib
+        names = set()
+        for fam in ('bsd', 'dyld', 'fsystem', 'mach', 'perf', 'trace', 'turnstile'):
+            try:
+                names |= set(getattr(importlib.import_module('pykdebugparser.trace_handlers.' + fam), 'handlers', {}))
+            except Exception:
+                pass
+        try:
+            from pykdebugparser.traces_parser import TracesParser
+            names |= set(getattr(TracesParser({}, {}, {}), 'handlers', {}))
+        except Exception:
+            pass
+        _CUR_HANDLERS = names
+    return _CUR_HANDLERS
 
 
 VAL_CONSTS = 'CONSTANT Variant = "ok"\n'
